@@ -589,7 +589,7 @@ func H20a2() {
 }
 
 func H20a2_twin() {
-	u, err := ParsePublicURL("https://nuts.nl"+vString(1), true)
+	u, err := ParsePublicURL("https://nuts.nl/"+string([]byte{'a' + byte(vRange(0, 25))}), true)
 	if err == nil && u.Path != "" {
 		vAssert(false, "H20a2_twin.reach: reachable")
 	}
